@@ -8,9 +8,24 @@ def run_sat(case):
     clauses = case["clauses"]
     tr = {"clauses": clauses, "assumptions": case.get("assumptions", []), "limit": case.get("limit", 1),
           "max_conflicts": case.get("max_conflicts", 100000), "max_restarts": case.get("max_restarts", 10000),
-          "luby_factor": case.get("luby_factor", 100), "input": case}
+          "luby_factor": case.get("luby_factor", 100), "planted": case.get("planted", []), "input": case}
     _verif.start()
     ev_ret = None
+    sparse = bool(case.get("sparse"))
+    orig_emit = _verif.emit
+    if sparse:
+        # long enumerations: record only the clause-database history (blocking clauses, the first reductions, budget
+        # events); the spec's guards on these events do not depend on the trail
+        n_red = [0]
+
+        def emit(kind, **f):
+            if kind in ("block", "max_iter"):
+                orig_emit(kind, **f)
+            elif kind == "reduce_db":
+                n_red[0] += 1
+                if n_red[0] <= 2:
+                    orig_emit(kind, **f)
+        _verif.emit = emit
     try:
         r = solve_sat(clauses, assumptions=case.get("assumptions") or None, max_conflicts=tr["max_conflicts"],
                       max_restarts=tr["max_restarts"], solution_limit=tr["limit"], luby_factor=tr["luby_factor"])
@@ -29,6 +44,10 @@ def run_sat(case):
     except Exception as ex:  # noqa: BLE001
         ev_ret = {"e": "raise", "what": type(ex).__name__}
     events, dropped = _verif.stop()
+    _verif.emit = orig_emit
+    if sparse:
+        tr["truncated"] = True
+        tr["reduce_db_calls"] = n_red[0]
     out = []
     for e in events:
         if e["e"] == "learn":
@@ -126,6 +145,38 @@ def gen_budget(rng, n):
             cls = threshold_3sat(rng, rng.randint(14, 22))
         out.append({"clauses": cls, "assumptions": [], "limit": 1, "max_conflicts": rng.randint(1, 40), "max_restarts": 10000,
                     "luby_factor": rng.choice([1, 100, 100])})
+    return out
+
+
+def gen_enum(rng, n, small=False):
+    """loose formulas with thousands of models, enumerated: blocking clauses accumulate past the reduce_db threshold
+    (2000 entries in `learned`) while restarts (luby_factor 1-3) keep calling reduce_db"""
+    out = []
+    for _ in range(n):
+        nv = 13 if small else rng.randint(13, 15)
+        out.append({"clauses": rand_cnf(rng, nv, 8 if small else rng.randint(nv - 5, nv - 3), 3, 3), "assumptions": [], "limit": 100000,
+                    "max_conflicts": 100000, "max_restarts": 10000, "luby_factor": rng.choice([1, 1, 3]), "sparse": True})
+    return out
+
+
+def gen_planted(rng, n):
+    """large satisfiable-by-construction mixed 2/3-SAT (binary clauses last): >= 2000 learned clauses, so reduce_db runs
+    over a database of learned clauses while the input has more clauses than the reduced database keeps.  The planted
+    model is the satisfiability witness the trace spec checks instead of running its DPLL oracle on 300+ variables."""
+    out = []
+    for _ in range(n):
+        nv = rng.randint(280, 340)
+        plant = [None] + [rng.random() < 0.5 for _ in range(nv)]
+
+        def cl(k):
+            while True:
+                vs = rng.sample(range(1, nv + 1), k)
+                c = [v if rng.random() < 0.5 else -v for v in vs]
+                if any(plant[abs(x)] == (x > 0) for x in c):
+                    return c
+        clauses = [cl(3) for _ in range(int(nv * 4.06))] + [cl(2) for _ in range(nv // 4)]
+        out.append({"clauses": clauses, "assumptions": [], "limit": 1, "max_conflicts": 100000, "max_restarts": 10000,
+                    "luby_factor": 100, "sparse": True, "planted": [v if plant[v] else -v for v in range(1, nv + 1)]})
     return out
 
 
